@@ -168,7 +168,8 @@ def wide_scope(n, free=('a', 'b', 'aa', 'ab', 'z', 'A'), inner=True):
     """a function declaring n names (v0..v{n-1}), each referenced (with different frequencies, so
     the most used get the shortest names), free globals named like generated names, an inner
     closure and a catch clause"""
-    decls = ', '.join('v%d = %d' % (i, i) for i in range(n))
+    # a few locals that already have the shortest spellings and are hardly used
+    decls = ', '.join('v%d = %d' % (i, i) for i in range(n)) + ', q = 1, r, Q = q'
     uses = ' + '.join('v%d' % i for i in range(n))
     extra = ' + '.join('v%d' % (i * 7 % n) for i in range(min(n, 40)))
     frees = ' + '.join(free)
